@@ -83,7 +83,7 @@ Definition exec_model (g : bool) (li : Z) (s : list Z) : option (option mtch * Z
         end
     end.
 
-(* regexp.(*Regexp).allMatches: pos, prevMatchEnd; n < 0 = all *)
+(* Regexp.allMatches of Go: pos, prevMatchEnd; n < 0 = all *)
 Fixpoint go_all (fuel : nat) (s : list Z) (pos : nat) (prev : option nat) (n : Z) (acc : list mtch) : option (list mtch) :=
   match fuel with
   | O => None
